@@ -183,11 +183,11 @@ Qed.
 Lemma upowmod_loop_spec M fuel : forall x y z m, wf x -> wf y -> wf z -> wf m ->
   uval m = M -> 2 <= M -> uval x < M -> uval z < M ->
   uval y < 2 ^ Z.of_nat fuel ->
-  exists r, upowmod_loop (S fuel) x y z m = Ok r /\ wf r /\ uval r = (uval x ^ uval y * uval z) mod M.
+  exists r, upowmod_loop true (S fuel) x y z m = Ok r /\ wf r /\ uval r = (uval x ^ uval y * uval z) mod M.
 Proof.
   induction fuel as [|f IH]; intros x y z m Hx Hy Hz Hm EM HM2 Hxlt Hzlt Hylt;
     pose proof (wf_range x Hx) as Rx; pose proof (wf_range y Hy) as Ry; pose proof (wf_range z Hz) as Rz;
-    cbn [upowmod_loop]; rewrite (iszero_correct y Hy).
+    cbn [upowmod_loop mulmod_pol]; rewrite (iszero_correct y Hy).
   - change (2 ^ Z.of_nat 0) with 1 in Hylt. assert (E : uval y = 0) by lia. rewrite E. cbn [Z.eqb].
     exists z. split; [reflexivity|]. split; [exact Hz|]. rewrite Z.pow_0_r, Z.mul_1_l. symmetry. apply Z.mod_small. lia.
   - destruct (uval y =? 0) eqn:E0.
@@ -196,7 +196,8 @@ Proof.
     destruct (iseven_correct y Hy) as (_ & ->).
     destruct (umulmod_spec x x m Hx Hx Hm ltac:(lia)) as (Wxx & Vxx). rewrite EM in Vxx.
     destruct (shrone_correct y Hy) as (Wy' & Vy').
-    set (z' := if uval y mod 2 =? 1 then umulmod z x m else z).
+    assert (Ez : (if uval y mod 2 =? 1 then Ok (umulmod z x m) else Ok z) = Ok (if uval y mod 2 =? 1 then umulmod z x m else z)) by (destruct (uval y mod 2 =? 1); reflexivity).
+    rewrite Ez. clear Ez. set (z' := if uval y mod 2 =? 1 then umulmod z x m else z).
     assert (Z' : wf z' /\ uval z' < M /\
                  (uval x ^ uval y * uval z) mod M = ((uval x * uval x) ^ (uval y / 2) * uval z') mod M).
     { subst z'. destruct (uval y mod 2 =? 1) eqn:E.
@@ -213,12 +214,14 @@ Proof.
       rewrite Z.mul_mod, pow_mod_base by lia. rewrite <- Z.mul_mod by lia. reflexivity.
 Qed.
 
-(* exact for every modulus: products are formed modulo m by double-and-add, nothing wraps *)
-Theorem upowmod_correct x y m : wf x -> wf y -> wf m ->
-  (uval m = 0 -> upowmod x y m = Err EDivZero) /\
-  (uval m <> 0 -> exists r, upowmod x y m = Ok r /\ wf r /\ uval r = (uval x ^ uval y) mod uval m).
+Lemma upowmod_policy_fact : upowmod_mulmod = true. Proof. reflexivity. Qed.
+
+(* exact for every modulus - for the policy that multiplies modulo m by double-and-add (nothing wraps) *)
+Theorem upowmod_pol_correct x y m : wf x -> wf y -> wf m ->
+  (uval m = 0 -> upowmod_pol true x y m = Err EDivZero) /\
+  (uval m <> 0 -> exists r, upowmod_pol true x y m = Ok r /\ wf r /\ uval r = (uval x ^ uval y) mod uval m).
 Proof.
-  intros Hx Hy Hm. unfold upowmod. rewrite isone_correct by auto.
+  intros Hx Hy Hm. unfold upowmod_pol. rewrite isone_correct by auto.
   pose proof (wf_range m Hm) as Rm. pose proof (wf_range y Hy) as Ry.
   split.
   - intros E0. rewrite E0. cbn [Z.eqb]. unfold umod. destruct (udivmod_correct x m Hx Hm) as (D0 & _). rewrite D0 by auto. reflexivity.
@@ -233,6 +236,28 @@ Proof.
       * pose proof bits_ge64. rewrite Z2Nat.id by lia. exact (proj2 Ry).
       * exists r. split; [exact R1|]. split; [exact R2|]. rewrite R3, V1, Z.mul_1_r, F.
         apply pow_mod_base; lia.
+Qed.
+
+Theorem upowmod_correct x y m : wf x -> wf y -> wf m ->
+  (uval m = 0 -> upowmod x y m = Err EDivZero) /\
+  (uval m <> 0 -> exists r, upowmod x y m = Ok r /\ wf r /\ uval r = (uval x ^ uval y) mod uval m).
+Proof. unfold upowmod. rewrite upowmod_policy_fact. apply upowmod_pol_correct. Qed.
+
+(* the modular products are needed: with bint_umod(a * b, m) the products wrap at 2^BITS before they are reduced;
+   witness x = 2^(BITS/2), y = 2, m = 2^BITS - 1 (x^2 = 2^BITS = 1 mod m, that policy returns 0) *)
+Theorem upowmod_mulmod_needed : ~ (forall x y m, wf x -> wf y -> wf m -> uval m <> 0 ->
+  exists r, upowmod_pol false x y m = Ok r /\ wf r /\ uval r = (uval x ^ uval y) mod uval m).
+Proof.
+  intros H.
+  pose (x := match bshl bint_one (BINT_BITS / 2) with Some v => v | None => bint_zero end).
+  assert (Wx : wf x).
+  { destruct (bshl_small bint_one (BINT_BITS / 2) (proj1 wf_one)) as (r & A & B & _).
+    - pose proof bits_ge64. split; [apply Z.div_pos; lia | apply Z.div_lt_upper_bound; lia].
+    - subst x. rewrite A. exact B. }
+  assert (W2 : wf (frominteger 2)) by (apply frominteger_correct; vm_compute; split; discriminate).
+  destruct (unm_correct bint_one (proj1 wf_one)) as (Wm & _).
+  specialize (H x (frominteger 2) (bunm bint_one) Wx W2 Wm ltac:(vm_compute; discriminate)).
+  destruct H as (r & A & _ & C). vm_compute in A. injection A as <-. vm_compute in C. discriminate.
 Qed.
 
 Example pow_example :
